@@ -218,6 +218,26 @@ def run_arithmetic(ctx, byte):
                             if not exact_equal(g, w.astype(wdt)) and numpy.any(w):
                                 ctx.fail(case, f"{da} {op} {db}: coefficient of q0**{k} is {numpy.asarray(g).tolist()}, numpy arithmetic gives {w.tolist()}", tags + ["value"])
                                 break
+            # an operand that *stores* an all-zero term (retained zero constant row): every cell of the product
+            # must still be written, on the compiled path and on the numpy path
+            za = numpy.zeros(3, dtype=da)
+            Z = numpoly.polynomial_from_attributes([[1], [0]], [data(da), za], ("q0",), dtype=da, retain_coefficients=True)
+            Y = numpoly.polynomial_from_attributes([[1], [0]], [data(da), data(da)[::-1].copy()], ("q0",), dtype=da)
+            for label, f in (("zero-term * poly", lambda: Z * Y), ("poly * zero-term", lambda: Y * Z), ("zero-term ** 2", lambda: Z ** 2),
+                             ("zero-term * high exponent", lambda: Z * numpoly.polynomial_from_attributes([[70], [0]], [data(da), data(da)], ("q0",), dtype=da))):
+                ctx.evaluations += 1
+                try:
+                    R = f()
+                except Exception as err:  # noqa: BLE001
+                    if da != "bool":
+                        ctx.fail({"kind": "arith", "op": label, "a": da}, f"{label} in {da} raised {type(err).__name__}: {str(err)[:100]}", ["arith", "zero-term", "raises"])
+                    continue
+                if poisoned(R, byte) or R.dtype != numpy.dtype(da):
+                    ctx.fail({"kind": "arith", "op": label, "a": da}, f"{label} in {da}: result holds coefficients that were never written (poison bytes) or has dtype {R.dtype}: {R!r}"[:300], ["arith", "zero-term", "poison"])
+                    continue
+                c0 = {int(e[0]): c for e, c in zip(R.exponents.tolist(), R.coefficients)}.get(0)
+                if label == "zero-term * poly" and c0 is not None and numpy.any(c0):
+                    ctx.fail({"kind": "arith", "op": label, "a": da}, f"{label} in {da}: constant term {c0.tolist()} should be 0", ["arith", "zero-term", "value"])
             # power keeps the dtype
             A = numpoly.polynomial_from_attributes([[1], [0]], [data(da), data(da)[::-1].copy()], ("q0",), dtype=da)
             try:
@@ -297,6 +317,24 @@ def run_empty_results(ctx, byte):
                 ctx.fail(case, f"{name}: expected the zero polynomial, got {R!r}", ["empty", "value"])
         elif numpy.any(numpy.asarray(R)):
             ctx.fail(case, f"{name}: expected zeros, got {R!r}", ["empty", "value"])
+    # selections in which every term is filtered away must keep the dtype and hold zeros (no constant row stored)
+    with warnings.catch_warnings():
+        warnings.simplefilter("ignore")
+        for dt in DTYPES:
+            x = numpy.array([3, 0, 0, 1]).astype(dt)
+            Pz = numpoly.polynomial_from_attributes([[1]], [x], ("q0",), dtype=dt)
+            sel = {"p[1]": lambda: Pz[1], "p[1:3]": lambda: Pz[1:3], "list(p)[2]": lambda: list(Pz)[2],
+                   "reshape(p[1:3])": lambda: numpoly.reshape(Pz[1:3], (2, 1)), "transpose(p[1:3])": lambda: numpoly.transpose(Pz[1:3]),
+                   "repeat(p[1:2])": lambda: numpoly.repeat(Pz[1:2], 2)}
+            for label, f in sel.items():
+                ctx.evaluations += 1
+                try:
+                    R = f()
+                except Exception as err:  # noqa: BLE001
+                    ctx.fail({"kind": "empty", "what": label, "dtype": dt}, f"{label} on a {dt} polynomial raised {type(err).__name__}: {str(err)[:100]}", ["empty", "raises"])
+                    continue
+                if R.dtype != numpy.dtype(dt) or poisoned(R, byte) or any(numpy.any(c) for c in R.coefficients):
+                    ctx.fail({"kind": "empty", "what": label, "dtype": dt}, f"{label} on a {dt} polynomial whose selected elements are all zero: dtype {R.dtype}, value {R!r}", ["empty", "dtype", f"dtype:{dt}"])
     # size-0 arrays (D16)
     size0 = {
         "polynomial([]) + 1": (lambda: numpoly.polynomial([]) + 1, (0,)),
